@@ -93,6 +93,7 @@ structure LeafR (I : State → Prop) : Prop extends LeafW I where
   armTop : ∀ t, Pres I (armTop t)
   setStopping : Pres I setStopping
   setRestarting : Pres I setRestarting
+  clearRestarting : Pres I clearRestarting
   setLoopStop : ∀ b, Pres I (setLoopStop b)
   setSocketEvent : ∀ b, Pres I (setSocketEvent b)
   setSockReady : ∀ b, Pres I (setSockReady b)
@@ -161,6 +162,7 @@ structure LeafRE (I : State → Prop) : Prop extends LeafWE I where
   armTop : ∀ t, Pres I (armTop t)
   setStopping : Pres I setStopping
   setRestarting : Pres I setRestarting
+  clearRestarting : Pres I clearRestarting
   setLoopStop : ∀ b, Pres I (setLoopStop b)
   setSocketEvent : ∀ b, Pres I (setSocketEvent b)
   setSockReady : ∀ b, Pres I (setSockReady b)
@@ -207,6 +209,7 @@ structure Leaf (I : State → Prop) : Prop extends LeafW I where
   setClosed : Pres I setClosed
   setStopping : Pres I setStopping
   setRestarting : Pres I setRestarting
+  clearRestarting : Pres I clearRestarting
   setLoopStop : ∀ b, Pres I (setLoopStop b)
   setSocketEvent : ∀ b, Pres I (setSocketEvent b)
   setSockReady : ∀ b, Pres I (setSockReady b)
@@ -235,7 +238,7 @@ attribute [aesop safe apply (rule_sets := [Pres])] Pres.pure Pres.getS Pres.getK
 attribute [aesop safe apply (rule_sets := [Pres])] Pres.bind Pres.ite Pres.for_in
 attribute [aesop safe apply (rule_sets := [Pres])] LeafK.emit LeafWE0.popPid LeafWE0.bumpHook LeafWE0.setObjStopping LeafWE0.setRc
   LeafWE0.markBlocked LeafWE.reapProcess
-attribute [aesop safe apply (rule_sets := [Pres])] LeafRE.trySetNp LeafRE.setWOpt LeafRE.freshId LeafRE.pushFrame LeafRE.removeFrame LeafRE.setFrameK LeafRE.armFrame LeafRE.pushSleeper LeafRE.armTop LeafRE.setStopping LeafRE.setRestarting LeafRE.setLoopStop LeafRE.setSocketEvent LeafRE.setSockReady LeafRE.clearDone LeafRE.unregister LeafRE.fireSleeper LeafRE.enqueueResume LeafRE.enqueueCallback
+attribute [aesop safe apply (rule_sets := [Pres])] LeafRE.trySetNp LeafRE.setWOpt LeafRE.freshId LeafRE.pushFrame LeafRE.removeFrame LeafRE.setFrameK LeafRE.armFrame LeafRE.pushSleeper LeafRE.armTop LeafRE.setStopping LeafRE.setRestarting LeafRE.clearRestarting LeafRE.setLoopStop LeafRE.setSocketEvent LeafRE.setSockReady LeafRE.clearDone LeafRE.unregister LeafRE.fireSleeper LeafRE.enqueueResume LeafRE.enqueueCallback
 attribute [aesop safe apply (rule_sets := [Pres])] SpecCoreRE.deliverTop SpecCoreRE.syncSetOpt SpecCoreRE.syncAdd SpecCoreRE.stopCore
   SpecCoreRE.guardedStop
 
@@ -929,6 +932,7 @@ theorem LeafR.toLeafRE (L : LeafR I) : LeafRE I where
   armTop := L.armTop
   setStopping := L.setStopping
   setRestarting := L.setRestarting
+  clearRestarting := L.clearRestarting
   setLoopStop := L.setLoopStop
   setSocketEvent := L.setSocketEvent
   setSockReady := L.setSockReady
@@ -1211,6 +1215,7 @@ theorem Leaf.toLeafR (L : Leaf I) : LeafR I where
   armTop := L.armTop
   setStopping := L.setStopping
   setRestarting := L.setRestarting
+  clearRestarting := L.clearRestarting
   setLoopStop := L.setLoopStop
   setSocketEvent := L.setSocketEvent
   setSockReady := L.setSockReady
